@@ -154,6 +154,7 @@ def fresh_views(ctx, rule):
     """Every SourceView is created with an empty cache and a zero progress counter (clones do
     not inherit indexing state): the state a reader sees is only ever produced under the lock."""
     n = 0
+    src_of = {}  # constructor function -> shape of the text its literal views
     for b in ctx.facts.local_fns():
         for bi, si, s, it in b.locations():
             if not it and s["k"] == "assign" and s["rv"]["k"] == "agg" and s["rv"].get("adt") == "sourceview::SourceView":
@@ -161,10 +162,20 @@ def fresh_views(ctx, rule):
                 n += 1
                 ok = q.shape(a.field("processed_until")) == "Atomic::new(0)" and q.shape(a.field("lines")) in ("Mutex::new(Vec::new())", "Mutex::new(Default::default())", "Default::default()")
                 ctx.check(ok, rule, b.path, "fresh-state", "a new or cloned SourceView starts unindexed (counter 0, empty cache)", ctx.site(b, bi, si), detail=q.shape(a)[:200])
-    ctx.floor(rule, "sourceview", "SourceView constructions", n, 3)
+                if ok:
+                    src_of.setdefault(b.path, []).append(q.shape(a.field("source")))
+    ctx.floor(rule, "sourceview", "SourceView constructions", n, 1)
+    # every function that hands out a SourceView by value builds a fresh literal or calls one that does
+    makers = [b for b in ctx.facts.local_fns() if b.sig and b.sig.rstrip().endswith("-> sourceview::SourceView") and b.kind != "Closure"]
+    ctx.floor(rule, "sourceview", "functions returning a SourceView", len(makers), 3)
+    for b in makers:
+        for sh, site, _ in q.def_shapes(b, 0, {}):
+            via = [f for f in src_of if sh.startswith(q.nice(f) + "(")]
+            ctx.check(sh.startswith("SourceView{") or bool(via), rule, b.path, "fresh-maker", "the returned view is a fresh literal or comes from a constructor that builds one", ctx.site(b, *site), detail=sh[:160])
     cl = ctx.body("<sourceview::SourceView as core::clone::Clone>::clone")
-    lit = [q.shape(cl.expr_of_rvalue(s["rv"]).field("source")) for bi, si, s, it in cl.locations() if not it and s["k"] == "assign" and s["rv"]["k"] == "agg" and s["rv"].get("adt") == "sourceview::SourceView"]
-    ctx.check(lit in (["arg1.source"], ["Clone::clone(arg1.source)"]), rule, cl.path, "clone:same-text", "a clone views the same text", detail=str(lit))
+    rets = [sh for sh, _, _ in q.def_shapes(cl, 0, {})]
+    ok = len(rets) == 1 and (q.wild("SourceView{source:arg1.source,*", rets[0]) or any(rets[0] == "%s(arg1.source)" % q.nice(f) and src_of[f] == ["arg1"] for f in src_of))
+    ctx.check(ok, rule, cl.path, "clone:same-text", "a clone views the same text", detail=str(rets))
 
 
 def r5_monotone(ctx, rule="C15.R4"):
@@ -276,9 +287,19 @@ def c15_r1_protocol(ctx, rule="C15.R1"):
     ctx.check(len(somes) >= 2, rule, fn, "answers", "get_line answers from the cache (idx < lines.len()) or from the freshly indexed lines")
 
 
+def slice_body(ctx):
+    """The body that computes the slice: get_line_slice itself or the closure it hands to and_then."""
+    root = "sourceview::SourceView::get_line_slice"
+    for b in [ctx.body(root)] + list(ctx.facts.closures_of(root)):
+        if q.calls_to(b, "str::get"):
+            return b
+    return ctx.body(SLICE_CLOSURE)
+
+
 def c15_r2_units(ctx, rule="C15.R2"):
-    b = ctx.body(SLICE_CLOSURE)
+    b = slice_body(ctx)
     fn = b.path
+    COL, SPAN = ("^arg3", "^arg4") if b.kind == "Closure" else ("arg3", "arg4")
     gets = q.calls_to(b, "str::get")
     if not ctx.check(len(gets) == 1, rule, fn, "final:get", "the slice is produced by one non-panicking str::get"):
         return
@@ -307,7 +328,7 @@ def c15_r2_units(ctx, rule="C15.R2"):
             continue
         e = b.expr_of_operand(t["discr"])
         sh = q.shape(e, roles)
-        if "^arg3" in sh:
+        if COL in sh:
             for x in e.walk():
                 if isinstance(x, Var) and not x.is_arg and x.ty in ("usize", "u64"):
                     u16.add(x.local)
@@ -323,10 +344,10 @@ def c15_r2_units(ctx, rule="C15.R2"):
         t = b.blocks[d]["term"]
         if t["k"] == "switch":
             sh = q.shape(b.expr_of_operand(t["discr"]), roles)
-            if "^arg3" in sh:
+            if COL in sh:
                 cmps.add(sh)
-    want_col = [s for s in cmps if q.wild("Le(cast<usize>(^arg3),U)", s)]
-    SUM = "Add(from<u64>(^arg3),from<u64>(^arg4))"
+    want_col = [s for s in cmps if q.wild("Le(cast<usize>(%s),U)" % COL, s)]
+    SUM = "Add(from<u64>(%s),from<u64>(%s))" % (COL, SPAN)
     want_end = [s for s in cmps if "U" in s.replace(SUM, "") and q.wild("L?(*%s*" % SUM, s.replace("Lt", "L?").replace("Le", "L?"))]
     gb = gets[0][0]
     ctx.check(has_fact(b, gb, roles, ("Le", SUM, "cast<u64>(U)"), ("Le", "cast<usize>(%s)" % SUM, "U")), rule, fn, "result:only-when-long-enough",
@@ -368,6 +389,9 @@ def c15_r3_iter(ctx, rule="C15.R3"):
 
 
 def c15_r5_pf(ctx, rule="C15.R5"):
-    paths = [GET_LINE, LINE_COUNT, LINES_NEXT, SLICE_CLOSURE, "sourceview::SourceView::get_line_slice", "sourceview::SourceView::lines",
-             "sourceview::SourceView::source", "sourceview::SourceView::get_line::{closure#0}"]
-    pf.check_bodies(ctx, rule, [ctx.body(p) for p in paths])
+    paths = [GET_LINE, LINE_COUNT, LINES_NEXT, "sourceview::SourceView::get_line_slice", "sourceview::SourceView::lines",
+             "sourceview::SourceView::source"]
+    bodies = [ctx.body(p) for p in paths]
+    for root in (GET_LINE, "sourceview::SourceView::get_line_slice"):
+        bodies += list(ctx.facts.closures_of(root))
+    pf.check_bodies(ctx, rule, bodies)
